@@ -61,7 +61,7 @@ def encode_world(w):
         out.append(frame("z") if u is None else frame("u", u))
     ur = w.get("urandom") or {}
     out.append(frame("r", "%d %d %d" % (ur.get("seed", 1), ur.get("absent_errno", 0), ur.get("short_after", -1))))
-    out.append(frame("c", "%d %d" % (w.get("cap", 10000), 1 if w.get("fill_stack", True) else 0)))
+    out.append(frame("c", "%d %d %d" % (w.get("cap", 10000), 1 if w.get("fill_stack", True) else 0, 1 if w.get("probe", True) else 0)))
     out.append(frame("."))
     return b"".join(out)
 
@@ -97,6 +97,7 @@ class Run:
         self.raw = b""
         self.overflow = False
         self.written = []
+        self.valgrind = ""
         self._hash = None
 
     # ---- classification
@@ -153,6 +154,24 @@ class Run:
 _frame_re = re.compile(r"^\s*#(\d+) 0x[0-9a-f]+ in (.+?) (/\S+?):(\d+)")
 _err_re = re.compile(r"ERROR: (?:AddressSanitizer|UndefinedBehaviorSanitizer): ([\w-]+)")
 _ub_re = re.compile(r"^(/\S+?):(\d+):(\d+): runtime error: (.*)$", re.M)
+
+
+_vg_head = re.compile(r"^==\d+== ([A-Z][^\n]*)$", re.M)
+_vg_frame = re.compile(r"^==\d+==\s+(?:at|by) 0x[0-9A-F]+: (.+?) \((\S+?):(\d+)\)$", re.M)
+
+
+def valgrind_site(txt):
+    """kind@file:function of the first memcheck error whose stack touches the repository"""
+    m = _vg_head.search(txt)
+    kind = re.sub(r"\d+", "N", m.group(1))[:60] if m else "error"
+    for fm in _vg_frame.finditer(txt):
+        fn, f = fm.group(1), fm.group(2)
+        if f in ("seam.cpp", "probe.cpp") or f.startswith("vg_"):
+            continue
+        if "/" not in f and not f.endswith((".c", ".cpp", ".h")):
+            continue
+        return "%s@%s:%s" % (kind, f, re.sub(r"\(.*$", "", fn))
+    return "%s@?" % kind
 
 
 def sanitizer_site(raw):
@@ -226,15 +245,28 @@ class ZygoteDied(Exception):
 
 
 class Zygote:
-    def __init__(self, exe):
+    def __init__(self, exe, valgrind=False):
         self.exe = exe
         self.p = None
         self.runs = 0
+        self.valgrind = valgrind
+        self.vglog = None
+        self.vgpos = 0
         self.start()
 
     def start(self):
         env = {"PATH": "/usr/bin:/bin", "LC_ALL": "C"}
-        self.p = subprocess.Popen([self.exe], stdin=subprocess.PIPE, stdout=subprocess.PIPE, env=env, cwd="/")
+        cmd = [self.exe]
+        kw = {}
+        if self.valgrind:
+            # memcheck over the optimised build: the zygote and every forked child log to one file
+            import tempfile
+            self.vglog = tempfile.TemporaryFile()
+            self.vgpos = 0
+            env["BTCSIM_NOASLR"] = "1"          # no re-exec under valgrind
+            cmd = ["valgrind", "-q", "--error-exitcode=76", "--log-fd=%d" % self.vglog.fileno(), self.exe]
+            kw["pass_fds"] = (self.vglog.fileno(),)
+        self.p = subprocess.Popen(cmd, stdin=subprocess.PIPE, stdout=subprocess.PIPE, env=env, cwd="/", **kw)
         tag, p = self._read_frame()
         if tag != "Y":
             raise ZygoteDied("no ready frame from %s" % self.exe)
@@ -265,7 +297,13 @@ class Zygote:
             frames.append((chr(blob[i]), blob[i + 5:i + 5 + ln]))
             i += 5 + ln
         self.runs += 1
-        return parse_run(frames)
+        r = parse_run(frames)
+        if self.valgrind:
+            self.vglog.seek(self.vgpos)
+            txt = self.vglog.read()
+            self.vgpos += len(txt)
+            r.valgrind = txt.decode(L1)
+        return r
 
     def close(self):
         if self.p:
